@@ -17,7 +17,7 @@ SH2 = list(itertools.product(range(-2, 3), repeat=3))
 
 def bonded(a1, a2, d):
     p1, p2 = a1.part.n, a2.part.n
-    allowed = (p1 == p2) or ((p1 == 0 or p2 == 0) and not (a1.ishydrogen or a2.ishydrogen))
+    allowed = (p1 == p2) or ((p1 == 0 or p2 == 0) and not (sc.is_h(a1) or sc.is_h(a2)))       # hydrogen = H, D or T by element symbol
     # covalent radii by element symbol from the library's table, not through the atom object
     return allowed and d < 1.2 * (gs.radius(a1.element) + gs.radius(a2.element))
 
@@ -102,7 +102,7 @@ def oracle(ctx, st, ob, with_q):
                 if d > 0.001 and bonded(atoms[i], b, d):      # an atom next to (not on) a symmetry element is bonded to its own image
                     if best is None or d < best:
                         best = d
-                    if not (atoms[i].ishydrogen and b.ishydrogen and atoms[i].an == b.an):
+                    if not (sc.is_h(atoms[i]) and sc.is_h(b) and atoms[i].an == b.an):
                         hh = False
         only_hh[(mi, n, k)] = best is not None and hh
         return best is not None, best
@@ -215,6 +215,42 @@ def targeted_search(ctx):
     return ev
 
 
+def grow_after_add(ctx, st):
+    """grow() after add_atom() gives what a fresh object gives for the file that holds this atom as its last atom line"""
+    import contextlib, io
+    from shelxfile.shelx.shelx import Shelxfile
+    text = gs.to_text(st)
+    rng = ctx.rng
+    base = rng.choice(st['atoms'])
+    el = rng.choice(['C', 'O', 'N'])
+    M = gs.ortho(st['cell'])
+    Mi = gs.inv3(M)
+    v = [rng.gauss(0, 1) for _ in range(3)]
+    ln = math.sqrt(sum(x * x for x in v)) or 1.0
+    d = gs.mv(Mi, [x / ln * 1.4 for x in v])
+    xyz = [round(base['xyz'][k] + d[k], 5) for k in range(3)]
+    key = lambda atoms: sorted((a.name.split('>>')[0], round(a.x, 4), round(a.y, 4), round(a.z, 4), a.part.n) for a in atoms)
+    shx = Shelxfile()
+    with contextlib.redirect_stdout(io.StringIO()):
+        shx.read_string(text)
+        shx.add_atom(name='X99', coordinates=list(xyz), element=el, uvals=[0.04, 0.0, 0.0, 0.0, 0.0, 0.0], part=0, sof=11.0)
+        edited = shx.grow()
+    lines = text.rstrip('\n').split('\n')
+    k = [i for i, l in enumerate(lines) if l.startswith('HKLF')][0]
+    if any(l.startswith('PART') for l in lines[:k]) and not lines[k - 1].startswith('PART 0'):
+        return 0
+    sf = gs.ELEMENTS.index(el) + 1
+    lines.insert(k, 'X99 %d %.5f %.5f %.5f 11.0 0.04' % (sf, xyz[0], xyz[1], xyz[2]))
+    fresh = Shelxfile()
+    with contextlib.redirect_stdout(io.StringIO()):
+        fresh.read_string('\n'.join(lines) + '\n')
+        ref = fresh.grow()
+    if key(edited) != key(ref):
+        common.add_violation(ctx, 'grow() after add_atom() differs from grow() of a fresh object reading the file that holds the added atom',
+                             {'text': text, 'added': ['X99', el, xyz]}, {'atoms': len(ref)}, {'atoms': len(edited), 'missing': [x for x in key(ref) if x not in key(edited)][:4]})
+    return 1
+
+
 def run(ctx):
     common.check_obligations(ctx, THEOREMS)
     rng = ctx.rng
@@ -236,6 +272,8 @@ def run(ctx):
         ev += oracle(ctx, st, ob, with_q)
         if k % 3 == 0:
             ev += regrow(ctx, st)
+        if k % 3 == 1:
+            ev += grow_after_add(ctx, st)
         mc = sc.metric_constants_ok(ob)
         if mc and not any('metric constants' in x for x in ctx.broken):
             ctx.broken.append('correspondence: metric constants of the SDM object differ from the cell: ' + mc)
